@@ -4,6 +4,7 @@
 let () =
   List.iter (fun line ->
     match split_ws line with
+    | id :: "S" :: _ -> print_endline (id ^ " sdd")   (* SDD caches: decided by the harness oracle and by C03's theorems *)
     | id :: "P" :: toks ->
       (* builder level: the model's result is the same for every cache behaviour (theorem
          C16_cache_transparent); run it with two different forgetting streams as a sanity test *)
